@@ -85,7 +85,7 @@ CLAIM = dict(
           "from greedy.py returns, from some fuel on, exactly what Rig.C05.allocate returns (allocation in dict "
           "order or the exception), and gen_allocate_det: with any positive fuel it returns that or reports a "
           "cut-off loop.  The property theorems are restated about the generated function - about what greedy.py "
-          "says at the time of the run: gen_alloc_sound (a returned dict has no None entry and satisfies Valid), "
+          "says at the time of the run: gen_alloc_sound (a returned dict has no None entry and satisfies Valid), gen_alloc_unique, "
           "gen_alloc_only_failure (dict, InsufficientResourceError or cut-off loop; from some fuel on never cut "
           "off, i.e. every `while` loop terminates), gen_alloc_complete.  A change of greedy.py that alters the "
           "meaning of any statement of `allocate` inside the translated subset breaks one of these proofs (or "
@@ -104,7 +104,7 @@ THEOREMS += ['loop7_step', 'loop8_step', 'gen_scan', 'loop6_step', 'gen_propose'
 THEOREMS += ['gen_resources', 'gen_vertices', 'gen_chips', 'rel_init', 'gen_group',   # generated outer loops / grouping = allocResources / allocVertices / allocChips / chipOrder
              'proposeLoop_det', 'allocateF_det', 'allocateF_stable',   # fuel independence
              'gen_allocateF', 'gen_allocate_det', 'gen_allocate',   # generated allocate = Rig.C05.allocate
-             'gen_alloc_sound', 'gen_alloc_only_failure', 'gen_alloc_complete']   # the property, about the generated function
+             'gen_alloc_sound', 'gen_alloc_unique', 'gen_alloc_only_failure', 'gen_alloc_complete']   # the property, about the generated function
 
 RULE = ("machines 1-3 x 1-3 with 1-3 resources, per-chip exceptions and dead chips; 1-6 used chips, 0-12 vertices "
         "per chip placed in shuffled (interleaved) order, demands incl. 0 and absent resources; up to 6 global and "
